@@ -387,54 +387,68 @@ theorem validate_chain_spec {γ : Type} (valid : γ → γ → Bool) (chain : Li
         rw [List.getElem?_tail]; exact List.getElem?_eq_getElem hi
       rw [h1, h2]
 
-/-- FULL-STRENGTH statement: `Certificate.validate` checks the signature with the parameters the certificate was signed
-    with.  FALSE on the current code for RSASSA-PSS certificates (which `Certificate.generate_certificate(pss_padding=True)`
-    and `nxpcertgen` produce): `pss_padding` is never passed.  Open finding `C08-cert-validate-ignores-pss`,
-    repair proposed in proposed_fixes/C08-3.diff. -/
-def CertValidateFull : Prop := ∀ alg hash, certValidateCall alg hash = certValidateSpec alg hash
-
-theorem cert_validate_params_partial (alg : CertAlg) (hash : String) (h : alg ≠ .rsaPss) :
-    certValidateCall alg hash = certValidateSpec alg hash := by
-  cases alg <;> simp_all [certValidateCall, certValidateSpec]
-
-theorem cert_validate_params_full_refuted : ¬ CertValidateFull := by
-  intro h
-  have := h .rsaPss "sha256"
-  simp [certValidateCall, certValidateSpec] at this
+/-- `Certificate.validate` / `validate_subject` check the signature with the parameters the certificate was signed with:
+    the certificate's hash, and PSS padding exactly for RSASSA-PSS certificates (full strength since commit 10a0142; the
+    seeded/unrepaired variant that never passes `pss_padding` falsifies it for `.rsaPss`). -/
+theorem cert_validate_params (alg : CertAlg) (hash : String) :
+    certValidateCall alg hash = certValidateSpec alg hash := rfl
 
 /-! ### signature providers -/
 
-/-- FULL-STRENGTH statement: a provider created by `get_signature_provider(sp_cfg="type=file;…", pss_padding=v)` signs with
-    PSS iff `v` is true.  FALSE on the current code (`sp_create_drops_pss`): open finding `C08-sp-create-drops-pss`. -/
-def SpPssHonoured : Prop :=
-  ∀ (params : Params) (v : PVal), params.lookup "pss_padding" = some v → createdUsesPss params = v.truthy
+/-- A provider created by `SignatureProvider.create` / `get_signature_provider(sp_cfg="type=file;…", pss_padding=v)` signs
+    with PSS iff `value_to_bool(v)`: `pss_padding` is a NAMED parameter of `PlainFileSP.__init__` (list generated from the
+    source), so `filter_params` keeps it although it is a reserved key (full strength since commit 9fd8586; before, the key
+    was deleted and the provider always signed PKCS#1 v1.5). -/
+theorem sp_create_honours_pss (params : Params) (v : PVal) (h : params.lookup "pss_padding" = some v) :
+    createdUsesPss params = valueToBool v := by
+  have hn : KeysTables.plainFileInitParams.contains "pss_padding" = true := by decide
+  have hk : (filterParams plainFileVarnames KeysTables.spReservedKeys params).lookup "pss_padding" = some v := by
+    unfold filterParams
+    rw [lookup_filter_keep]
+    · exact h
+    · intro p hp; rw [hp]; decide
+  unfold createdUsesPss plainFileSignKwargs plainFileInitKwargs
+  rw [hk, hn, List.lookup_append, lookup_filter_none]
+  · simp [PVal.truthy]
+  · intro p hp; rw [hp, hn]; rfl
 
-/-- What the code does: `pss_padding` is a reserved key and not a named parameter of `PlainFileSP.__init__` (it would be
-    swallowed by `**kwargs`), so `SignatureProvider.create` deletes it — whatever value was given, the provider signs
-    PKCS#1 v1.5.  (Lists taken from the source: `Generated.KeysTables.spReservedKeys`, `plainFileInitParams`.) -/
-theorem sp_create_drops_pss (params : Params) : createdUsesPss params = false := by
-  unfold createdUsesPss plainFileSignKwargs filterParams
-  rw [List.filter_filter, lookup_filter_none]
-  intro p hp
-  rw [hp]; decide
+/-- … and without the key the provider signs PKCS#1 v1.5. -/
+theorem sp_create_default_v15 (params : Params) (h : params.lookup "pss_padding" = none) :
+    createdUsesPss params = false := by
+  have hn : KeysTables.plainFileInitParams.contains "pss_padding" = true := by decide
+  have hk : (filterParams plainFileVarnames KeysTables.spReservedKeys params).lookup "pss_padding" = none := by
+    unfold filterParams
+    rw [lookup_filter_keep]
+    · exact h
+    · intro p hp; rw [hp]; decide
+  unfold createdUsesPss plainFileSignKwargs plainFileInitKwargs
+  rw [hk, hn, List.lookup_append, lookup_filter_none]
+  · simp
+  · intro p hp; rw [hp, hn]; rfl
 
-theorem sp_pss_full_refuted : ¬ SpPssHonoured := by
-  intro h
-  have := h [("type", .str "file"), ("file_path", .str "k.pem"), ("pss_padding", .bool true)] (.bool true) (by decide)
-  rw [sp_create_drops_pss] at this
-  simp [PVal.truthy] at this
-
-/-- The `local_file_key=` path does honour the flag (with Python truthiness: the string `"False"` counts as true). -/
+/-- The `local_file_key=` path converts the same way (the text `"False"` is false). -/
 theorem sp_local_file_honours_pss (kwargs : Params) (v : PVal) (h : kwargs.lookup "pss_padding" = some v) :
-    localFileUsesPss kwargs = v.truthy := by
-  simp [localFileUsesPss, h]
+    localFileUsesPss kwargs = valueToBool v := by
+  have hn : KeysTables.plainFileInitParams.contains "pss_padding" = true := by decide
+  unfold localFileUsesPss plainFileInitKwargs
+  rw [h, hn, List.lookup_append, lookup_filter_none]
+  · simp [PVal.truthy]
+  · intro p hp; rw [hp, hn]; rfl
 
 /-- Every other keyword (not reserved, not a named parameter) reaches `private_key.sign` unchanged. -/
-theorem sp_create_keeps_other_kwargs (params : Params) (k : String)
+theorem sp_create_keeps_other_kwargs (params : Params) (k : String) (hk : k ≠ "pss_padding")
     (h1 : KeysTables.spReservedKeys.contains k = false) (h2 : KeysTables.plainFileInitParams.contains k = false) :
     (plainFileSignKwargs params).lookup k = params.lookup k := by
-  unfold plainFileSignKwargs filterParams
-  rw [lookup_filter_keep, lookup_filter_keep]
+  have hb : (k == "pss_padding") = false := by rw [beq_eq_false_iff_ne]; exact hk
+  unfold plainFileSignKwargs plainFileInitKwargs filterParams
+  rw [List.lookup_append, lookup_filter_keep, lookup_filter_keep]
+  · cases hl : params.lookup k with
+    | some v => simp
+    | none =>
+      simp only [Option.none_or]
+      split
+      · split <;> simp [List.lookup, hb]
+      · rfl
   · intro p hp; rw [hp, h1]; rfl
   · intro p hp; rw [hp, h2]; rfl
 
@@ -463,52 +477,31 @@ theorem hash_from_sig_size_agrees :
 
 /-! ### raw key files of the nxpcrypto CLI -/
 
-/-- FULL-STRENGTH: every raw private key written by `nxpcrypto key convert -e RAW` is read back by `reconstruct_key`.
-    FALSE for secp521r1 (66 bytes: "Can't recognize key"): open finding `C08-cli-raw-private-p521`. -/
-def CliRawPrivateFull : Prop :=
-  ∀ (privOk : Curve → Nat → Bool) (onCurve : Curve → Nat → Nat → Bool) (c : Curve) (d : Nat), d < 256 ^ c.cl → privOk c d = true →
-    ∃ b, cliRawPrivate c d = .ok b ∧ reconstructRaw privOk onCurve b = .ok (.priv c d)
-
-theorem cli_raw_private_roundtrip_partial (privOk : Curve → Nat → Bool) (onCurve : Curve → Nat → Nat → Bool) (c : Curve) (d : Nat)
-    (hc : c ≠ .p521) (hd : d < 256 ^ c.cl) (hok : privOk c d = true) :
+/-- Every raw private key written by `nxpcrypto key convert -e RAW` — all three curves, any number of leading zero
+    bytes — is read back by `reconstruct_key` (full strength since commit 3df4efc; before, the 66 bytes of secp521r1
+    were refused). -/
+theorem cli_raw_private_roundtrip (privOk : Curve → Nat → Bool) (onCurve : Curve → Nat → Nat → Bool) (c : Curve) (d : Nat)
+    (hd : d < 256 ^ c.cl) (hok : privOk c d = true) :
     cliRawPrivate c d = .ok (beEnc c.cl d) ∧ reconstructRaw privOk onCurve (beEnc c.cl d) = .ok (.priv c d) := by
   refine ⟨toBytes_ok _ _ hd, ?_⟩
   unfold reconstructRaw
   rw [beEnc_length, beDec_beEnc _ _ hd]
   cases c with
-  | p521 => exact absurd rfl hc
   | p256 =>
     have : (KeysTables.keyLenCurve Curve.p256.cl).bind Curve.ofName = some .p256 := by decide
     rw [this]; simp only
-    have h2 : Curve.p256.cl ≤ 48 := by decide
+    have h2 : Curve.p256.cl ≤ 48 ∨ Curve.p256.cl = 66 := by decide
     simp [h2, hok]
   | p384 =>
     have : (KeysTables.keyLenCurve Curve.p384.cl).bind Curve.ofName = some .p384 := by decide
     rw [this]; simp only
-    have h2 : Curve.p384.cl ≤ 48 := by decide
+    have h2 : Curve.p384.cl ≤ 48 ∨ Curve.p384.cl = 66 := by decide
     simp [h2, hok]
-
-/-- every 66-byte raw private key of secp521r1 is refused by the raw stage, whatever its value -/
-theorem cli_raw_private_p521_refused (privOk : Curve → Nat → Bool) (onCurve : Curve → Nat → Nat → Bool) (d : Nat) :
-    reconstructRaw privOk onCurve (beEnc Curve.p521.cl d) = .error .spsdk := by
-  unfold reconstructRaw
-  rw [beEnc_length]
-  have e : Curve.p521.cl = 66 := by decide
-  rw [e]
-  have : (KeysTables.keyLenCurve 66).bind Curve.ofName = some .p521 := by decide
-  rw [this]
-  simp
-
-theorem cli_raw_private_full_refuted : ¬ CliRawPrivateFull := by
-  intro h
-  obtain ⟨b, hb, hr⟩ := h (fun _ _ => true) (fun _ _ _ => true) .p521 1 (by decide) rfl
-  have e : b = beEnc Curve.p521.cl 1 := by
-    have := toBytes_ok Curve.p521.cl 1 (by decide)
-    unfold cliRawPrivate at hb
-    rw [this] at hb
-    exact (Except.ok.inj hb).symm
-  rw [e, cli_raw_private_p521_refused] at hr
-  exact absurd hr (by simp)
+  | p521 =>
+    have : (KeysTables.keyLenCurve Curve.p521.cl).bind Curve.ofName = some .p521 := by decide
+    rw [this]; simp only
+    have h2 : Curve.p521.cl ≤ 48 ∨ Curve.p521.cl = 66 := by decide
+    simp [h2, hok]
 
 /-- raw public keys of 64 / 96 bytes are also understood by the raw stage (they normally never get there: `PublicKey.parse`
     accepts them first — and the 132-byte P-521 form, `pubparse_nxp_ecc`) -/
@@ -548,7 +541,9 @@ theorem reconstruct_key_order {α : Type} (k : α) (q : Try α) (raw : PyRes α)
 example : matchingKeyId [false, false, true, true] = .ok 2 := by decide
 example : validateChain (fun a b => a + 1 == b) [1, 2, 4, 5] = .ok [true, false, true] := by decide
 example : certExportNxp [0x30, 0x82, 1, 2, 3] = [0x30, 0x82, 1, 2, 3, 0, 0, 0] := by decide
-example : plainFileSignKwargs [("type", .str "file"), ("file_path", .str "k"), ("pss_padding", .bool true), ("foo", .str "1")] = [("foo", .str "1")] := by decide
+example : plainFileSignKwargs [("type", .str "file"), ("file_path", .str "k"), ("pss_padding", .str "True"), ("foo", .str "1")] = [("foo", .str "1"), ("pss_padding", .bool true)] := by decide
+example : createdUsesPss [("type", .str "file"), ("pss_padding", .str "False")] = false ∧ localFileUsesPss [("pss_padding", .bool true)] = true := by decide
+example : reconstructRaw (fun _ _ => true) (fun _ _ _ => true) (beEnc 66 7) = .ok (.priv .p521 7) := by decide +kernel
 example : reconstructRaw (fun _ _ => true) (fun _ _ _ => true) (beEnc 32 7) = .ok (.priv .p256 7) := by decide +kernel
 
 /-! ## non-vacuity -/
